@@ -13,6 +13,7 @@
 package main
 
 import (
+	"bytes"
 	"encoding/json"
 	"fmt"
 	"io"
@@ -1060,6 +1061,9 @@ func main() {
 		"SGPR positions follow the AMDGPU kernel ABI set-up order for the enabled user/system SGPRs",
 		"unified-GPU launch: the LaunchUnifiedMultiGPUKernelCommand is built as enqueueLaunchUnifiedKernel builds it (one packet per member GPU); the memory-copy commands that precede it are not part of the case",
 	}
+	// the partition of one grid over the compute units by the real dispatchers (round-robin, greedy, partition
+	// algorithms; real command processor, explorer-driven CUs): auxiliary binary built from checks/c09
+	r.RunPart("dispatch", "-part-of=C08")
 	r.Finish()
 }
 
@@ -1078,6 +1082,10 @@ func replay(r *harness.Run) {
 		os.Exit(2)
 	}
 	c := f.Case
+	if c.Kind == "" && bytes.Contains(data, []byte(`"scenario"`)) {
+		// a finding of the dispatching part (explorer replay file)
+		os.Exit(harness.RunPartBinary("dispatch", "-part-of=C08", "-replay", r.Replay))
+	}
 	run := func() *viol {
 		switch c.Kind {
 		case "grid":
